@@ -13,8 +13,10 @@
 (* Accepts(lay, t) = the layout rule of Value::check_type.                  *)
 (* Integers are sign+magnitude records over base-256 limbs (module BigMod). *)
 (* Types use the JSON records of harness/src/export.rs.                     *)
+(* JToks(t) / JNums(t, v) = the human-readable (JSON) form of a typed value *)
+(*                  as a token sequence: structure, and the numbers in it.  *)
 (***************************************************************************)
-EXTENDS BigMod, TLC, Json
+EXTENDS BigMod, TLC, Json, IOUtils
 
 CSTs == <<"b", "u8", "i8", "u16", "i16", "u32", "i32", "u64", "i64", "u128", "i128">>
 CBits(st) == CASE st = "b" -> 1
@@ -107,6 +109,49 @@ Faithful(st, zz) ==
        /\ InRange(st, zz) => ZNorm(vv, ZL) = ZNorm(zz, ZL)
 
 (***************************************************************************)
+(* The human-readable form (typed_value_serialization.rs).  A typed value   *)
+(* is written as a JSON object                                              *)
+(*   scalar       {"kind":"scalar","type":<st>,"value":<number>}            *)
+(*   array        {"kind":"array","type":<st>,"value":<nested lists>}       *)
+(*                 -- row-major: a list of shape[0] items, each the nested  *)
+(*                 lists of shape[1..]; the innermost lists hold numbers    *)
+(*   tuple/vector {"kind":"tuple"|"vector","value":[<typed value>, ...]}    *)
+(*   named tuple  {"kind":"named tuple","value":[{"name":..,"value":<typed  *)
+(*                 value>}, ...]}                                           *)
+(* where a number is the integer the element denotes (signed types: the     *)
+(* two's complement reading, so negative numbers carry a minus sign).       *)
+(* TLC does not parse text: the harness tokenizes the text with a generic   *)
+(* JSON reader (object keys in alphabetical order) and the specification    *)
+(* states the token sequence: "{" "}" "[" "]", "k:<key>", "s:<string>" and  *)
+(* "#" for a number; the numbers themselves are listed in order of          *)
+(* appearance as sign+magnitude integers.                                   *)
+(***************************************************************************)
+JStName(st) == IF st = "b" THEN "bit" ELSE st
+RECURSIVE JRepeat(_, _)
+JRepeat(sq, nn) == IF nn = 0 THEN <<>> ELSE sq \o JRepeat(sq, nn - 1)
+RECURSIVE JNest(_)
+JNest(sh) == <<"[">> \o (IF Len(sh) = 1 THEN [ii \in 1..sh[1] |-> "#"] ELSE JRepeat(JNest(Tail(sh)), sh[1])) \o <<"]">>
+RECURSIVE JToks(_)
+RECURSIVE JToksSeq(_, _)
+RECURSIVE JToksNamed(_, _)
+JToksSeq(cs, ii) == IF ii > Len(cs) THEN <<>> ELSE JToks(cs[ii]) \o JToksSeq(cs, ii + 1)
+JToksNamed(ty, ii) == IF ii > Len(ty.el) THEN <<>>
+                      ELSE <<"{", "k:name", "s:" \o ty.nm[ii], "k:value">> \o JToks(ty.el[ii]) \o <<"}">> \o JToksNamed(ty, ii + 1)
+JToks(ty) ==
+  CASE ty.k = "s" -> <<"{", "k:kind", "s:scalar", "k:type", "s:" \o JStName(ty.st), "k:value", "#", "}">>
+    [] ty.k = "a" -> <<"{", "k:kind", "s:array", "k:type", "s:" \o JStName(ty.st), "k:value">> \o JNest(ty.sh) \o <<"}">>
+    [] ty.k = "t" -> <<"{", "k:kind", "s:tuple", "k:value", "[">> \o JToksSeq(ty.el, 1) \o <<"]", "}">>
+    [] ty.k = "v" -> <<"{", "k:kind", "s:vector", "k:value", "[">> \o JToksSeq(CComps(ty), 1) \o <<"]", "}">>
+    [] ty.k = "n" -> <<"{", "k:kind", "s:named tuple", "k:value", "[">> \o JToksNamed(ty, 1) \o <<"]", "}">>
+\* the numbers of the form in order of appearance; vl = the value as a tree whose leaves are flat row-major
+\* sequences of byte chunks (CBytes(st) limbs per element, one limb 0/1 per bit)
+RECURSIVE JNums(_, _)
+RECURSIVE JNumsSeq(_, _, _)
+JNumsSeq(cs, vs, ii) == IF ii > Len(cs) THEN <<>> ELSE JNums(cs[ii], vs[ii]) \o JNumsSeq(cs, vs, ii + 1)
+JNums(ty, vl) == IF ty.k \in {"s", "a"} THEN [ee \in 1..Len(vl) |-> ZNorm(ValOf(ty.st, vl[ee]), ZL)]
+                 ELSE JNumsSeq(CComps(ty), vl, 1)
+
+(***************************************************************************)
 (* Generated values (C15): unused bits of the last byte of every leaf are 0 *)
 (***************************************************************************)
 RECURSIVE LeafTypes(_)
@@ -168,13 +213,54 @@ Layouts == { BL(nn) : nn \in {0, 1, 2, 3, 4, 5, 8, 9, 16, 17, 32} } \cup
              VL(<<VL(<<>>), VL(<<>>)>>), VL(<<BL(2), BL(2), BL(2)>>), VL(<<VL(<<BL(2)>>), BL(4)>>) }
 CtCases == { [kind |-> "ct", lay |-> ly, t |-> ty] : ly \in Layouts, ty \in CtTypes }
 
-Cases == ScCases \cup BaCases \cup CtCases
+\* JSON form cases (B1): the types whose values the harness writes as text.  Arrays of every scalar type over all
+\* shapes of rank <= 3 (rank 4 sampled) with independent dimensions -- square and non-square -- and containers
+\* of depth <= 3 over non-square arrays.  IOEnv.C13_TIER = "thorough" widens the dimensions.
+JtThorough == "C13_TIER" \in DOMAIN IOEnv /\ IOEnv.C13_TIER = "thorough"
+JtD1 == IF JtThorough THEN 1..33 ELSE 1..9
+JtD2 == IF JtThorough THEN 1..8 ELSE 1..5
+JtD3 == IF JtThorough THEN 1..5 ELSE 1..3
+JtRank4 == IF JtThorough THEN { <<aa, bb, cc, dd>> : aa \in 1..2, bb \in 1..3, cc \in 1..2, dd \in 1..3 }
+           ELSE { <<2, 1, 3, 2>>, <<1, 2, 2, 3>>, <<3, 2, 1, 2>>, <<2, 2, 2, 2>> }
+JtShapes == { <<aa>> : aa \in JtD1 } \cup { <<aa, bb>> : aa \in JtD2, bb \in JtD2 } \cup
+            { <<aa, bb, cc>> : aa \in JtD3, bb \in JtD3, cc \in JtD3 } \cup JtRank4
+JtCSh == { <<2, 3>>, <<3, 2>>, <<1, 3>>, <<3, 2, 2>>, <<2, 1, 3>>, <<5>> }
+JtCSt == IF JtThorough THEN { CSTs[si] : si \in 1..Len(CSTs) } ELSE { "b", "i8", "u16", "i64", "u128", "i128" }
+JtContainers(sh, st) ==
+  { TT(<<AT(sh, st), ST(st)>>),
+    VT(3, AT(sh, st)),
+    NT(<<"a", "b b">>, <<ST("b"), AT(sh, st)>>),
+    TT(<<VT(2, TT(<<AT(sh, st), ST("i16")>>)), AT(sh, "b")>>),
+    NT(<<"x", "y">>, <<VT(2, AT(sh, st)), TT(<<>>)>>) }
+JtTypes == { ST(CSTs[si]) : si \in 1..Len(CSTs) } \cup
+           { AT(sh, CSTs[si]) : sh \in JtShapes, si \in 1..Len(CSTs) } \cup
+           UNION { JtContainers(sh, st) : sh \in JtCSh, st \in JtCSt }
+JtCases == { [kind |-> "jt", t |-> ty] : ty \in JtTypes }
+
+Cases == ScCases \cup BaCases \cup CtCases \cup JtCases
 
 CodecInit == cur \in Cases
 CodecNext == UNCHANGED cur
 CodecSpec == CodecInit /\ [][CodecNext]_cur
 
 Unpack(bs, len) == [ii \in 1..len |-> LBit(bs, ii - 1)]
+\* laws of the JSON form: as many numbers as the type has elements, brackets and braces balance and never go negative
+RECURSIVE JBrackets(_)
+JBrackets(sh) == IF Len(sh) = 1 THEN 1 ELSE 1 + sh[1] * JBrackets(Tail(sh))
+RECURSIVE JCount(_, _, _)
+JCount(tk, what, ii) == IF ii > Len(tk) THEN 0 ELSE (IF tk[ii] = what THEN 1 ELSE 0) + JCount(tk, what, ii + 1)
+RECURSIVE JDepthOK(_, _, _)
+JDepthOK(tk, ii, dp) == IF ii > Len(tk) THEN dp = 0
+                        ELSE LET nd == dp + (IF tk[ii] \in {"[", "{"} THEN 1 ELSE IF tk[ii] \in {"]", "}"} THEN -1 ELSE 0)
+                             IN nd >= 0 /\ JDepthOK(tk, ii + 1, nd)
+RECURSIVE JLeafEls(_, _)
+JLeafEls(ls, ii) == IF ii > Len(ls) THEN 0 ELSE CNumEl(ls[ii]) + JLeafEls(ls, ii + 1)
+JFormLaw(ty) == LET tk == JToks(ty) IN
+  /\ JCount(tk, "#", 1) = JLeafEls(LeafTypes(ty), 1)
+  /\ JCount(tk, "[", 1) = JCount(tk, "]", 1)
+  /\ JDepthOK(tk, 1, 0)
+  /\ ty.k = "a" => Len(tk) = 7 + CNumEl(ty) + 2 * JBrackets(ty.sh)
+
 BitArrayLaw(bits) == LET bs == PackBits(bits) IN
   /\ Len(bs) = (Len(bits) + 7) \div 8
   /\ Unpack(bs, Len(bits)) = bits
@@ -186,9 +272,11 @@ Expected(cs) ==
                           bytes |-> IF EncDefined(cs.st, cs.z) THEN EncScalar(cs.st, cs.z) ELSE <<>>]
     [] cs.kind = "ba" -> [kind |-> "ba", bits |-> cs.bits, bytes |-> PackBits(cs.bits)]
     [] cs.kind = "ct" -> [kind |-> "ct", lay |-> cs.lay, t |-> cs.t, acc |-> Accepts(cs.lay, cs.t)]
+    [] cs.kind = "jt" -> [kind |-> "jt", t |-> cs.t, ntok |-> Len(JToks(cs.t)), nnum |-> JCount(JToks(cs.t), "#", 1)]
 
 CodecLaws ==
   /\ cur.kind = "sc" => Faithful(cur.st, cur.z)
   /\ cur.kind = "ba" => BitArrayLaw(cur.bits)
+  /\ cur.kind = "jt" => JFormLaw(cur.t)
 Emit == PrintT(<<"CASE", ToJson(Expected(cur))>>)
 =============================================================================
